@@ -176,3 +176,32 @@ Proof.
     destruct (fname_eqb (name_of si) m); [inversion El; reflexivity|apply IH; exact El].
   - apply rep_w_recw, rep_cur_rep. apply (fr_rep _ _ _ _ _ Rf).
 Qed.
+
+(* ---------------- the "extend a pending batch" branch of apply_act ---------------- *)
+(* A write of a linked tail writer goes to the SYNCED end of its file; a batch
+   that is still pending there (its fsync failed) ends strictly behind it.  So
+   the branch of apply_act that extends a pending batch (off = pb_end p, Link/
+   DiskFacts3.v frep_extend, Props/Link.v Link_ex_merged_crash) is never taken
+   by a write of a history with injected faults: the pending batch is REPLACED
+   (apply_write_over).  Restarts clear pending batches (adopt_disk). *)
+Theorem write_never_extends c tw info bs bd d f p :
+  wtail_link c tw info bs bd d -> lookup (ws_name tw) (dk_files d) = Some f -> df_pend f = Some p ->
+  ws_off tw < pb_end p.
+Proof.
+  intros [Tn Th Tw Tf] El Ep. destruct (Tf f El) as (bf & pb & _ & R).
+  destruct R as [A _ _ _ _]. destruct pb as [b|].
+  - destruct A as (_ & p' & Hp' & _ & Hb2 & _). rewrite Ep in Hp'. inversion Hp'; subst p'.
+    rewrite Hb2, image_snoc, len_app, (rw_off _ _ Tw). cbn [wst w_off].
+    pose proof (batch_write_pos info (cstate info bs) b). unfold image. lia.
+  - rewrite (rep_pend _ _ _ A) in Ep. discriminate.
+Qed.
+
+(* the decidable form of the side condition, for examples *)
+Lemma stale_freeb_spec bd d : NoDup (map fst bd) -> stale_freeb bd d = true -> stale_free bd d.
+Proof.
+  induction bd as [|[m g] r IH]; intros ND H n bf f Hb Hl; cbn [blookup] in Hb; [discriminate|].
+  cbn [stale_freeb] in H. apply andb_true_iff in H as [H1 H2]. inversion ND as [|? ? Hni ND']; subst.
+  destruct (fname_eqb n m) eqn:E.
+  - apply fname_eqb_eq in E. subst m. inversion Hb; subst g. rewrite Hl in H1. apply no_stale_commitb_spec. exact H1.
+  - apply (IH ND' H2 n bf f Hb Hl).
+Qed.
